@@ -78,6 +78,16 @@ def leaf_alphabet(reduced=False):
     add('arr:float1d', lambda: np.array([0.5, -1.5]))
     add('arr:str1d', lambda: np.array(['x', 'y']))
     add('arr:int2d', lambda: np.array([[1, 2], [3, 4]]))
+    # arrays that orjson does not take natively (fallback serializer):
+    # non-contiguous views, Fortran order, float16, object arrays
+    add('arr:transposed', lambda: np.array([[0.0, 1.0], [2.0, 3.0]]).T)
+    add('arr:strided', lambda: np.arange(6.0)[::2])
+    add('arr:column', lambda: np.array([[1, 2], [3, 4]])[:, 1])
+    add('arr:fortran', lambda: np.asfortranarray(
+        np.array([[1.5, 2.5], [3.5, 4.5]])))
+    add('arr:float16', lambda: np.array([0.5, 1.5], dtype=np.float16))
+    add('arr:objquant', lambda: np.array(
+        [1.5 * units.fg, 2 * units.fg], dtype=object))
     mags = [('0', 0), ('-2.25', -2.25), ('nan', math.nan),
             ('inf', math.inf), ('1e-300', 1e-300), ('1e300', 1e300),
             ('2^53-1', 2 ** 53 - 1), ('npf', np.float64(1.5)),
@@ -100,6 +110,7 @@ def leaf_alphabet(reduced=False):
     add('function', lambda: a_function)
     if reduced:
         keep = {'int:0', 'float:0.1', 'None', "str:'a'", 'np.float64',
+                'arr:transposed', 'arr:objquant',
                 'arr:float1d', 'q:nan*fg', 'q:-2.25*mg/mL', 'q:arr*um',
                 'unit:fg', 'process'}
         L = [x for x in L if x[0] in keep]
@@ -125,6 +136,8 @@ def normal_form(x):
     if isinstance(x, (int, float)):
         return x
     if isinstance(x, np.ndarray):
+        if x.dtype == object:
+            return [normal_form(v) for v in list(x)]
         return [normal_form(v) for v in x.tolist()]
     if isinstance(x, (list, tuple)):
         return [normal_form(v) for v in x]
@@ -347,7 +360,10 @@ def run_chunk(job, acc):
                                           or len(shape[1]) < 2))
         if len(acc.samples) < 3 and shape[0] == 'dict' and len(
                 shape[1]) == 2 and 'q:' in lbl:
-            acc.sample({'tree': lbl, 'serialized': serialize_value(x)})
+            try:
+                acc.sample({'tree': lbl, 'serialized': serialize_value(x)})
+            except Exception:  # noqa  (judged by check_value above)
+                pass
 
 
 def run_rejects(acc):
